@@ -49,6 +49,16 @@ def make_lines(rng, n):
         else:
             ops = pc.mixed_ops(rng)
         x, y = query(rng, ops)
+        u = rng.random()
+        if u < 0.08:
+            # a point on an edge line moved off it by a unit or two in the last place: it is NOT on the edge any more
+            bx = FB(x) + rng.choice([-2, -1, 1, 2]) if x != 0 else FB(x)
+            x = bits_f32(bx)
+        elif u < 0.14:
+            # the same shape and point at a thousandth of the size (exact powers of two keep the geometry similar)
+            k = rng.choice([1.0 / 1024, 1.0 / 65536, 1024.0])
+            ops = [" ".join([o.split()[0]] + [str(FB(bits_f32(int(v)) * k)) if o.split()[0] in ("M", "L") else v for v in o.split()[1:]]) for o in ops]
+            x, y = x * k, y * k
         lines.append("pcontains %d %d %d %d %s" % (i, FB(rng.choice([0.1, 0.01, 0.5])), FB(x), FB(y),
                                                    scene.path_tokens(ops, rng.randrange(2))))
     return lines
